@@ -40,6 +40,20 @@ static char   tracebuf[1 << 16];
 static int    force_exdev;
 static size_t default_allocator_calls;
 
+// ---- the C library's own heap: bytes allocated now, as the sanitizer runtime counts them.  Measured around the
+// filesystem cases (every block the driver itself takes in between is released again before the second reading):
+// growth means that a block obtained behind the caller's allocator (realpath(p, NULL), strdup, getcwd(NULL, 0),
+// opendir without closedir ...) was not released.  Without a sanitizer runtime the token is "libc=-".
+__attribute__((weak)) size_t __sanitizer_get_current_allocated_bytes(void);
+static size_t heap0;
+static long   heap_delta;
+static int    heap_measured;
+
+static size_t heap_now(void)
+{
+  return __sanitizer_get_current_allocated_bytes ? __sanitizer_get_current_allocated_bytes() : 0U;
+}
+
 static const char* stname(ZixStatus st)
 {
   switch (st) {
@@ -71,6 +85,11 @@ static void report_tail(size_t spurious)
 {
   printf(" ; req=%zu failed=%zu out=%zu err=%zu spurious=%zu defalloc=%zu", V.requests, V.failed, V.outstanding, V.errors,
          spurious, default_allocator_calls);
+  if (heap_measured && __sanitizer_get_current_allocated_bytes) {
+    printf(" libc=%ld", heap_delta);
+  } else {
+    printf(" libc=-");
+  }
   if (V.errors) {
     printf(" first_error=\"%s\"", V.first_error);
   }
@@ -85,6 +104,11 @@ static void begin_case(VallocMode mode, size_t k)
   force_exdev             = 0;
   memset(tracebuf, 0, sizeof(tracebuf));
   V.trace = fmemopen(tracebuf, sizeof(tracebuf) - 1, "w");
+  if (V.trace) {
+    setvbuf(V.trace, NULL, _IONBF, 0); // no stdio buffer that would appear on the heap at the first event
+  }
+  heap_measured = 0;
+  heap_delta    = 0;
 }
 
 static void end_case(void)
@@ -551,6 +575,7 @@ static void run_fs(char** a, int n)
   snprintf(p1, sizeof(p1), "%s/a", scratch);
   snprintf(p2, sizeof(p2), "%s/b", scratch);
   const size_t size = n > 1 ? strtoul(a[1], 0, 10) : 0;
+  heap0 = heap_now();
   if (!strcmp(a[0], "mkdirs")) {
     // optional argument: total length of the path (boundary cases of any fixed-size buffer inside the function)
     char long_path[1200];
@@ -646,6 +671,12 @@ static void run_fs(char** a, int n)
     unlink(p2);
     ZixStatus st = zix_copy_file(A, p1, p2, ZIX_COPY_OPTION_OVERWRITE_EXISTING);
     printf("st=%s equal=%d", stname(st), files_equal(p1, p2));
+  } else if (!strcmp(a[0], "copyfull")) {
+    // the destination accepts no data (/dev/full): the kernel copy is refused, the block loop's first write fails
+    // with ENOSPC; an error must be reported and nothing may stay allocated
+    write_file(p1, size, 3, -1);
+    ZixStatus st = zix_copy_file(A, p1, "/dev/full", ZIX_COPY_OPTION_OVERWRITE_EXISTING);
+    printf("st=%s", st == ZIX_STATUS_SUCCESS ? "SUCCESS" : "error");
   } else if (!strcmp(a[0], "equals")) {
     write_file(p1, size, 3, -1);
     write_file(p2, size, 3, n > 2 ? atol(a[2]) : -1);
@@ -653,6 +684,8 @@ static void run_fs(char** a, int n)
   } else {
     printf("?");
   }
+  heap_delta    = (long)heap_now() - (long)heap0;
+  heap_measured = 1;
   report_tail(0);
 }
 
@@ -667,6 +700,41 @@ int main(void)
   }
   setenv("ZIXV", "value", 1);
   setenv("HOME", "/home/u", 1);
+  {
+    // everything the C library sets up lazily and keeps (stdio buffers, directory streams' caches, ...) is set up
+    // now, so that it is not taken for a leak of the first case that happens to need it
+    static char outbuf[1 << 16];
+    setvbuf(stdout, outbuf, _IOFBF, sizeof(outbuf));
+    char w1[400], w2[400];
+    snprintf(w1, sizeof(w1), "%s/warm", scratch);
+    snprintf(w2, sizeof(w2), "%s/warm/tXXXXXX", scratch);
+    zix_create_directories(NULL, w1);
+    char* r1 = zix_canonical_path(NULL, w1);
+    char* r2 = zix_current_path(NULL);
+    char* r3 = zix_temp_directory_path(NULL);
+    char* r4 = zix_create_temporary_directory(NULL, w2);
+    if (r4) {
+      rmdir(r4);
+    }
+    char* r5 = realpath(w1, NULL);
+    DIR*  d  = opendir(w1);
+    if (d) {
+      (void)readdir(d);
+      closedir(d);
+    }
+    snprintf(w2, sizeof(w2), "%s/warm/f", scratch);
+    write_file(w2, 10, 3, -1);
+    (void)files_equal(w2, w2);
+    (void)zix_file_equals(NULL, w2, w1);
+    (void)zix_copy_file(NULL, w2, "/dev/full", ZIX_COPY_OPTION_OVERWRITE_EXISTING);
+    unlink(w2);
+    rmdir(w1);
+    free(r5);
+    zix_free(NULL, r4);
+    zix_free(NULL, r3);
+    zix_free(NULL, r2);
+    zix_free(NULL, r1);
+  }
 
   char*  line = NULL;
   size_t cap  = 0;
